@@ -14,7 +14,7 @@
    forwarder has not taken yet, a's mailbox / received items that came through s, a alive). *)
 From Coq Require Import List NArith Bool Arith.
 From RV Require Import OutPort.Spec OutPort.SpecProofs OutPort.Harness OutPort.HarnessProofs.
-From RV Require OutPort.V1 OutPort.V2 OutPort.V1Proofs OutPort.V2Proofs.
+From RV Require OutPort.V1 OutPort.V2 OutPort.V1Proofs OutPort.V2Proofs OutPort.V2NoDup.
 Import ListNotations.
 
 (* ---------------- default port (tokio broadcast, one forwarding task per subscription) *)
@@ -131,6 +131,25 @@ Theorem C16_v2_dead_subscriber_inert : forall C cv ad ls1 ls2 st1 st2 s a c,
   V2.projs C s a ls1 = V2.projs C s a ls2 ->
   V2.absv C s a st1 = V2.absv C s a st2.
 Proof. exact V2Proofs.v2_inert. Qed.
+
+(* (9b) a v2 port created with allow_duplicate_subscription = false never serves two
+   subscriptions of one actor, in any reachable state: no publication reaches an actor twice
+   through re-subscription.  False with the flag true (V2NoDup.two_subs_refuted), where
+   "never twice" holds per subscription (C16_v2_exact). *)
+Theorem C16_v2_nodup_one_per_actor : forall C cv ls st,
+  V2.run C cv false (V2.init C) ls = Some st ->
+  NoDup (map (V2.e_actor C) (V2.subscribers C st)).
+Proof. exact V2NoDup.v2_nodup_one_per_actor. Qed.
+
+(* (9c) apply_subscriber on such a port, exactly: the actor's previous subscription is replaced
+   in place and reported, or the new entry is appended *)
+Theorem C16_v2_nodup_apply_spec : forall C (l : list (V2.entry C)) e,
+  (exists l1 x l2, l = l1 ++ x :: l2 /\ V2.e_actor C x = V2.e_actor C e
+     /\ ~ In (V2.e_actor C e) (map (V2.e_actor C) l1)
+     /\ V2.apply_subscriber C false l e = (l1 ++ e :: l2, Some (V2.e_sid C x)))
+  \/ (~ In (V2.e_actor C e) (map (V2.e_actor C) l)
+      /\ V2.apply_subscriber C false l e = (l ++ [e], None)).
+Proof. exact V2NoDup.apply_subscriber_false_spec. Qed.
 
 Theorem C16_v2_publish_nonblocking : forall C cv ad (st : V2.state C) m,
   V2.closed C st = false ->
@@ -291,6 +310,8 @@ Print Assumptions C16_v2_publish_nonblocking.
 Print Assumptions C16_v2_refines_sub1.
 Print Assumptions C16_v2_exact.
 Print Assumptions C16_v2_dead_subscriber_inert.
+Print Assumptions C16_v2_nodup_one_per_actor.
+Print Assumptions C16_v2_nodup_apply_spec.
 Print Assumptions C16_sub1_subsequence.
 Print Assumptions C16_sub1_unbounded_exact.
 Print Assumptions C16_canonical_v1_is_run.
